@@ -164,12 +164,24 @@ def union_predicates(chk):
         chk.add(Ob(func, "true-exactly-for-objects-whose-origin-is-a-union-form", f"p{pi}", path.hyps + name_axioms(), goal, {"outcome": out.kind}))
     func = f"{INSP}.isoptionaltype"
     NONE_T = _val_of(type(None))
+    # "after NewType and alias resolution": a union member counts as None when it is None / NoneType behind NewType / alias layers,
+    # or is itself optional behind them (the function's own answer for the unwrapped member; recursive calls use this contract)
+    unwrap_f = z3.Function("unwrap", Val, Val)
+    optional_f = z3.Function("isoptionaltype_of_the_unwrapped_member", Val, BoolS)
+    I.stubs[func] = Stub("inspection.isoptionaltype", lambda I, p, a, k: SBool(optional_f(to_val(a[0]))), "isoptionaltype(unwrapped member): this very contract, for a smaller annotation")
+    I.stubs[f"{INSP}.unwrap"] = Stub("inspection.unwrap", lambda I, p, a, k: SV(unwrap_f(to_val(a[0]))), "unwrap(member): the member with NewType / alias layers removed, never raising (C11)")
+
+    def behind(m):
+        u = unwrap_f(m)
+        return z3.Or(u == NONE_T, u == VNone, optional_f(u))
+    ELL = _val_of(Ellipsis)
     for pi, (path, out, obls, writes, cur) in enumerate(I.run_function(func, mk)):
         obj = cur["obj"]
-        hy = path.hyps + name_axioms()
         o = origin_v(obj)
+        is_union = z3.Or(*[o == _val_of(u) for u in UNION_OBJS])
+        hy = path.hyps + name_axioms() + [z3.Not(behind(ELL))]      # the "not found" marker object is no NewType / alias of None
         unionish = z3.Or(*[o == _val_of(u) for u in UNION_OBJS + (typing.Literal,)])
-        is_none = lambda j: z3.Or(arg_at(obj, j) == NONE_T, arg_at(obj, j) == VNone)
+        is_none = lambda j: z3.Or(arg_at(obj, j) == NONE_T, arg_at(obj, j) == VNone, z3.And(is_union, behind(arg_at(obj, j))))
         if out.kind != "ret":
             chk.add(Ob(func, "optional-iff-a-union-or-literal-with-a-None-member", f"p{pi}", hy, z3.BoolVal(False), {"outcome": out.kind}))
             continue
